@@ -108,7 +108,7 @@ def exprs(draw, typ, n, d, depth, allow_val=True):
             return ["treye", draw(exprs("s", n, d, depth - 1, allow_val))]
         return draw(st.sampled_from([["grad"], ["sym"]]))
     if typ == "v":
-        k = draw(st.integers(0 if allow_val else 2, 4 if depth > 0 else 2))
+        k = draw(st.integers(1 if allow_val else 2, 4 if depth > 0 else 2))
         if k <= 1:
             return ["val", draw(st.booleans())]
         if k == 2:
@@ -141,7 +141,7 @@ def bilinear_terms(draw, n, d, avoid_known=False):
     if n == 1:
         typ = draw(st.sampled_from(["s", "v", "v"]))
     else:
-        typ = draw(st.sampled_from(["s", "v", "m", "m"]))
+        typ = draw(st.sampled_from(["s", "v", "m", "m", "m"]))
     allow_val = not (avoid_known and n > 1)
     if n == 1 and typ == "s" and avoid_known:
         both_val = draw(st.booleans())
@@ -378,8 +378,10 @@ def compile_bilinear(form: dict, d: int):
     """python function (u, v) -> FeArray, to be wrapped in BiLinearForm"""
     parts = [(t["coef"], compile_expr(t["u"], d), compile_expr(t["v"], d), t["con"]) for t in form["terms"]]
 
+    const = all(is_const(t["coef"]) for t in form["terms"])
+
     def a(u, v):
-        x, y, z = u.Get_coords()
+        x, y, z = (None, None, None) if const else u.Get_coords()
         tot = None
         for coef, fu, fv, con in parts:
             val = coef_value(coef, x, y, z) * _contract(con, fu(u), fv(v))
@@ -392,8 +394,10 @@ def compile_bilinear(form: dict, d: int):
 def compile_linear(form: dict, d: int):
     parts = [(t["coef"], compile_expr(t["v"], d)) for t in form["terms"]]
 
+    const = all(is_const(t["coef"]) for t in form["terms"])
+
     def l(v):
-        x, y, z = v.Get_coords()
+        x, y, z = (None, None, None) if const else v.Get_coords()
         tot = None
         for coef, fv in parts:
             val = coef_value(coef, x, y, z) * fv(v)
